@@ -88,7 +88,7 @@ def c09(prop, tier, verdict):
 def c16(prop, tier, verdict):
     def cl(line, s):
         return 'auth:%s/first=%s,pipe=%s,timing=%s,hook=%s-%s' % (line.get('ev'), s.get('first'), s.get('pipe'), s.get('timing'), s.get('hookpos'), s.get('hookverdict'))
-    cov, _ = eng_generic.run(prop, tier, verdict, 'Accept', 'auth', 'PAuth', cl, mc_cfg='Accept_mc.cfg', min_count=400,
+    cov, _ = eng_generic.run(prop, tier, verdict, 'Accept', 'auth', 'PAuth', cl, mc_cfg='Accept_mc.cfg', min_count=500,
                              nontrivial=lambda s: s['first'] != 'authgood' or s['pipe'] != 'none')
     return 'model_checking', cov, ['ServeConn path over the in-memory connection with the shipped auth checker plugin; the ListenAndServe path is not driven',
                                    'client behaviours: 11 first-message classes x 4 pipelining classes x 2 timings x 5 placements/verdicts of another accept hook (440 scenarios, all replayed)']
@@ -115,7 +115,10 @@ def c18(prop, tier, verdict):
         return 'overload:%s:after-%s%s' % (line.get('ev'), line.get('op') or (ops[-1] if ops else '?'), ':rejected-before' if any(x['op'] in ('connect', 'burst') and x['admitted'] < x['k'] for x in s.get('steps', [])) else '')
     rates = [{'rate': {'cap': c, 'interval_ms': 50, 'bursts': b, 'waits_ms': w}, 'steps': []}
              for c in (1, 3) for b, w in (([6, 6, 6], [120, 30]), ([2, 8, 3, 8], [10, 160, 10]))]
-    cov, _ = eng_generic.run(prop, tier, verdict, 'Overload', 'overload', 'POverload', cl, consts={'MaxOps': '7', 'GuardRelease': 'TRUE', 'Limits': '{1, 2}'},
+    # a refill of more than one token per tick: capacity 10, interval 500 ms (5 per tick): partial drain, one tick, burst
+    rates += [{'rate': {'cap': 10, 'interval_ms': 500, 'bursts': b, 'waits_ms': w}, 'steps': []}
+              for b, w in (([1, 24], [560]), ([3, 20, 20], [540, 20]))]
+    cov, _ = eng_generic.run(prop, tier, verdict, 'Overload', 'overload', 'POverload', cl, consts={'MaxOps': '7', 'GuardRelease': 'TRUE', 'Limits': '{0, 1, 2}'},
                              mc_cfg='Overload_mc.cfg', extra_cfg='VIEW view', min_count=200, nontrivial=lambda s: len(s.get('steps', [])) > 2, extra_scenarios=rates)
     cov['atomic_model'] = 'spec/OverloadAtomic.tla: 3 concurrent take/release threads at atomic-operation granularity, limit 2: %d distinct states, NeverOver holds' % ra['distinct']
     return 'model_checking', cov, ['connection limit 1..3, histories of at most 7 operations (connect, concurrent burst of 2-3 connects, disconnect, close, raise of the limit), one scenario per transition of the model',
